@@ -165,6 +165,11 @@ def _with_rest(s, rest):
     return ast.copy_location(n, s)
 
 
+# attribute names that, wherever the module under comparison stores to them, receive a freshly built container (`set()`,
+# `{}`, `[]`, ...): a read of such an attribute is never None.  Set by the loader.
+NONNULL_ATTRS = frozenset()
+
+
 # names (as bound in the module under comparison) of generator functions every path of which yields before it finishes;
 # set by the loader (sa/alpha.py nonempty_generators) after checking the definitions in the current tree
 NONEMPTY = frozenset()
@@ -1359,6 +1364,10 @@ class Exec(object):
             return
         if c[0] == 'const' and c[1] in ('True', 'False', 'None', '0', '1'):
             seq.extend(self.block(body if c[1] in ('True', '1') else orelse, st))
+            return
+        if c[0] == 'cmp' and c[1] == 'is' and c[3] == ('const', 'None') and c[2][0] == 'attr' and c[2][2] in NONNULL_ATTRS:
+            # the attribute only ever holds a container built on the spot: not None
+            seq.extend(self.block(orelse, st))
             return
         if c[0] == 'cmp' and c[1] in ('is', '==') and c[2][0] == 'const' and c[3][0] == 'const':
             # two literals: decided here (`p = None; if p is None:` after a default argument has been bound)
